@@ -118,7 +118,26 @@ def run(prog, chk):
             key = "%s:%s" % (f.qual, unparse(c.args[1])[:30] if len(c.args) > 1 else "?")
             chk.ob("R2.result-is-applications", key, ok, ff.where(n),
                    "result <- %s" % sorted(set(unparse(r) if r is not None else "?" for (d, r) in origins)))
-    chk.floor("R2", "_send_auth_result call sites", nsites, 7)
+    chk.floor("R2", "_send_auth_result call sites", nsites, 5)
+    # R2b: telling the application "GSS-API succeeded" requires a MIC check that returned normally
+    ngss = 0
+    for f in auth_methods(prog):
+        if not any(M.is_call(c) and (dotted(c.func) or "").startswith("self.transport.server_object.check_auth_gssapi_")
+                   for c in walk_no_defs(f.node)):
+            continue
+        ff = Flow(prog, f)
+        mic = [n for (n, c) in ff.nodes_with_call(attr="ssh_check_mic")]
+        for (n, c) in ff.nodes_with_call():
+            if not (dotted(c.func) or "").startswith("self.transport.server_object.check_auth_gssapi_"):
+                continue
+            ngss += 1
+            claim = [unparse(a) for a in c.args[1:2]]
+            alts = ff.expand_text(c.args[1], n, depth=2) if len(c.args) > 1 else []
+            ok = bool(mic) and ff.dominated([n], guard_nodes=mic)
+            # receiver of ssh_check_mic must be usable: a None context must not skip the check
+            chk.ob("R2.gss-claim-needs-mic-check", "%s:%s" % (f.qual, dotted(c.func).rsplit(".", 1)[1]), ok, ff.where(n),
+                   "gss_authenticated=%s passed to the application only after ssh_check_mic returned normally" % (alts or claim))
+    chk.floor("R2", "GSS application callbacks", ngss, 2)
 
     # R3 publickey -------------------------------------------------------------------------------
     ar = prog.func("AuthHandler._parse_userauth_request")
@@ -210,3 +229,6 @@ def run(prog, chk):
     # client signs the same function
     users = [f.qual for f in auth_methods(prog) for c in walk_no_defs(f.node) if M.is_call(c, name="self._get_session_blob")]
     chk.ob("R4.same-blob-both-sides", "callers", len(users) >= 2 and "AuthHandler._parse_userauth_request" in users, sb.loc, "callers: %s" % sorted(set(users)))
+    # R6: the result is for *that username*: the request is tied to the one pinned name (rules shared with C16)
+    from .c16 import pin_rules
+    pin_rules(prog, chk, prefix="R6.")
